@@ -12,6 +12,14 @@ pub enum Edge {
     Include,
     Import,
     FromImport,
+    /// `{% include ['t.txt'] %}`: the name is a list of candidates
+    IncludeList,
+    /// `{% include ['missing.txt', 't.txt'] %}`
+    IncludeListMissingFirst,
+    /// `{% include 't.txt' ignore missing %}`
+    IncludeIgnoreMissing,
+    /// `{% include 't' ~ k ~ '.txt' %}`: a computed name
+    IncludeComputed,
 }
 
 #[derive(Clone, Debug, Serialize, Deserialize)]
@@ -94,6 +102,12 @@ pub fn build(c: &RecCase) -> (String, Vec<(String, String)>, Value) {
                     Edge::Macro => format!("{{{{ n{next}(d - 1) }}}}"),
                     Edge::CallBlock => format!("{{% call(dd) via(d - 1) %}}{{{{ n{next}(dd) }}}}{{% endcall %}}"),
                     Edge::Include => format!("{{% with d = d - 1 %}}{{% include 't{next}.txt' %}}{{% endwith %}}"),
+                    Edge::IncludeList => format!("{{% with d = d - 1 %}}{{% include ['t{next}.txt'] %}}{{% endwith %}}"),
+                    Edge::IncludeListMissingFirst => {
+                        format!("{{% with d = d - 1 %}}{{% include ['missing.txt', 't{next}.txt'] ignore missing %}}{{% endwith %}}")
+                    }
+                    Edge::IncludeIgnoreMissing => format!("{{% with d = d - 1 %}}{{% include 't{next}.txt' ignore missing %}}{{% endwith %}}"),
+                    Edge::IncludeComputed => format!("{{% with d = d - 1 %}}{{% include 't' ~ {next} ~ '.txt' %}}{{% endwith %}}"),
                     Edge::Import => format!("{{% import 't{next}.txt' as mod %}}{{{{ mod.n{next}(d - 1) }}}}"),
                     Edge::FromImport => format!("{{% from 't{next}.txt' import n{next} %}}{{{{ n{next}(d - 1) }}}}"),
                 }
@@ -224,7 +238,19 @@ impl Part for Recursion {
     const NAME: &'static str = "recursive_shapes";
 
     fn strategy(_tier: Tier) -> BoxedStrategy<RecCase> {
-        let edge = crate::runner::one_of(&[Edge::Macro, Edge::CallBlock, Edge::Include, Edge::Import, Edge::FromImport]);
+        let edge = crate::runner::one_of(&[
+            Edge::Macro,
+            Edge::CallBlock,
+            Edge::Include,
+            Edge::Import,
+            Edge::FromImport,
+            Edge::Macro,
+            Edge::CallBlock,
+            Edge::IncludeList,
+            Edge::IncludeListMissingFirst,
+            Edge::IncludeIgnoreMissing,
+            Edge::IncludeComputed,
+        ]);
         let shape = prop_oneof![
             8 => prop::collection::vec(edge, 1..5).prop_map(Shape::Cycle),
             2 => (1u16..900).prop_map(Shape::RecursiveLoop),
